@@ -694,6 +694,9 @@ func (d *Def) Evaluation(
 		return d.endlessDefinition(e, p, ctx, method, []string{}, defineRow)
 	}
 
+	// def hoge followed by a line break: what comes next is the body
+	isHeaderEnded := nextT.IsNewLineIdentifier()
+
 	var args []string
 	var isBlockGiven bool
 
@@ -710,7 +713,7 @@ func (d *Def) Evaluation(
 	}
 
 	// def hoge() = 1
-	if nextT.IsEqualIdentifier() {
+	if nextT.IsEqualIdentifier() && !isHeaderEnded {
 		return d.endlessDefinition(e, p, ctx, method, args, defineRow)
 	}
 
